@@ -22,7 +22,7 @@ what={'F1':("a function, closure or builtin call among the right-hand sides of a
 'F2':("tuple assignment whose destinations include an array element, a struct field or a pointee: the store into the composite destination is lost or applied to a copy","findings/C01/tuple-assignment-composite-lhs.go"),
 'F3':("branch conditions that are constant expressions (case false, case !true, if false {} else if true {}, !!c with constant c) select a wrong branch","findings/C01/constant-condition.go"),
 'F4':("range over a string containing invalid UTF-8 (produced by slicing inside a multi-byte rune) reports other byte offsets than gc","findings/C01/range-invalid-utf8.go"),
-'F5':("divergent cells of the swept C01 universe not yet attributed to a smaller defect class (each is a complete witness: replay the cell)","findings/C01/call-in-tuple-assignment.go")}
+'F5':("a comparison with a parenthesised identifier operand used as the left operand of && or || (r = ((i) == q) && r) panics: reflect: call of reflect.Value.Bool on int Value","findings/C01/paren-operand-in-logical.go")}
 with open(kf,'a') as f:
     for k in sorted(g):
         f.write(json.dumps({"property":"C01","id":"C01-"+k,"status":"open","cells":sorted(g[k]),"what":what[k][0],"witness":what[k][1]})+'\n')
